@@ -149,6 +149,45 @@ static void run_bfs(const std::string& fen, int depth)
         }
         frontier.swap(next);
     }
+    if (PROP == "C14")
+    {
+        // order independence: the same positions evaluated in two different orders on two long-lived
+        // evaluators (every position gets a different predecessor), and every 16th on a fresh one
+        std::vector<std::string> fens(seen.begin(), seen.end());
+        std::sort(fens.begin(), fens.end());
+        if (fens.size() > 60000) fens.resize(60000);
+        PositionScorer A, B;
+        std::vector<Value> va(fens.size());
+        for (size_t i = 0; i < fens.size(); ++i)
+        {
+            Position e(fens[i] + " 0 1");
+            va[i] = A.score(e);
+        }
+        for (size_t k = 0; k < fens.size(); ++k)
+        {
+            size_t i = fens.size() - 1 - k;
+            ref::Pos rp;
+            ref::parse_fen(fens[i] + " 0 1", rp);
+            if (ref::insufficient(rp)) continue;
+            Position e(fens[i] + " 0 1");
+            Value vb = B.score(e);
+            R.count("order_pairs");
+            sub.transitions++;
+            bool bad = vb != va[i];
+            Value vf = vb;
+            if (!bad && (i % 16) == 0)
+            {
+                PositionScorer fresh;
+                vf = fresh.score(e);
+                R.count("fresh_references");
+                bad = vf != vb;
+            }
+            if (bad)
+                R.violation("C14:impure:depends_on_previous_evaluations:" + sigclass(rp),
+                            mc::JObj().s("fen", fens[i] + " 0 1").n("score_forward_order", va[i]).n("score_reverse_order", vb).n("score_fresh", vf)
+                                .s("previous_in_forward_order", i ? fens[i - 1] + " 0 1" : "").s("previous_in_reverse_order", i + 1 < fens.size() ? fens[i + 1] + " 0 1" : ""));
+        }
+    }
     sub.exhaustive = complete;
     R.sample(mc::JObj().s("fen", fen).s("space", sub.name).str());
     R.subspaces.push_back(sub);
